@@ -20,3 +20,5 @@ open Golem.Props.C19
 #print axioms fold_left_slice
 #print axioms walk_elems
 #print axioms script_equiv
+#print axioms foldl_cons_monoid
+#print axioms fold_cons_list
